@@ -465,6 +465,9 @@ pub fn run(args: &Args) -> Report {
             // one long string
             let parts = vec![vec!["x".repeat(target - 10)]];
             check_tags(&mut rep, &mut rng, &parts, "one-long-string");
+            // the smallest values: no tags at all, one empty tag
+            check_tags(&mut rep, &mut rng, &[], "no-tags");
+            check_tags(&mut rep, &mut rng, &[vec![]], "one-empty-tag");
             // many short tags ["a"] (7 bytes each)
             let n = (target - 4) / 7;
             let mut parts: Vec<Vec<String>> = (0..n).map(|_| vec!["a".to_string()]).collect();
